@@ -7,6 +7,7 @@ import (
 
 	"verifmc/explore"
 	"verifmc/peer"
+	"verifmc/wire"
 )
 
 // C13 — the client never settles on a protocol version it did not advertise.
@@ -14,36 +15,43 @@ import (
 func c13Scenario(clients []gridClient) *explore.Scenario {
 	maxes := []uint16{tls.VersionTLS13, tls.VersionTLS12, tls.VersionTLS11, tls.VersionTLS10}
 	return &explore.Scenario{
-		Name: "server-version-behaviours",
+		Name:   "server-version-behaviours",
+		Budget: map[string]int{"cli": 1},
 		Run: func(x *explore.X) (r explore.Result) {
 			g := clients[x.Choose("client", len(clients))]
 			smax := maxes[x.Choose("srv.max", len(maxes))]
 			legacy := x.Choose("srv.legacy", 2) == 1 // negotiate from legacy_version only
 			canary := x.Choose("srv.canary", 3)       // 0 honest, 1 stripped, 2 forged (DOWNGRD sentinel forced)
+			cliCfg := x.Choose("cli.versions", 3) // 0 untouched Config, 1 Config.MinVersion = TLS 1.0, 2 Config.MaxVersion = TLS 1.2
 			h0, err := g.probeHello()
 			if err != nil {
 				r.Obs = "no-hello"
 				return
 			}
 			o := offerOf(h0)
-			adv := map[uint16]bool{}
-			for _, v := range o.versions {
-				adv[v] = true
-			}
-			if h0.Find(43) == nil {
-				// no supported_versions: [spec minimum .. legacy_version]; the spec minimum of a
-				// hello without the extension is TLS 1.0 unless the spec says otherwise
-				min := uint16(tls.VersionTLS10)
-				if g.Spec == nil {
-					if sp, err := tls.UTLSIdToSpec(g.ID); err == nil && sp.TLSVersMin != 0 {
-						min = sp.TLSVersMin
-					}
-				}
-				adv = map[uint16]bool{}
-				for v := min; v <= h0.LegacyVersion; v++ {
+			advOf := func(h0 *wire.Hello) map[uint16]bool {
+				o := offerOf(h0)
+				adv := map[uint16]bool{}
+				for _, v := range o.versions {
 					adv[v] = true
 				}
+				if h0.Find(43) == nil {
+					// no supported_versions: [spec minimum .. legacy_version]; the spec minimum of a
+					// hello without the extension is TLS 1.0 unless the spec says otherwise
+					min := uint16(tls.VersionTLS10)
+					if g.Spec == nil {
+						if sp, err := tls.UTLSIdToSpec(g.ID); err == nil && sp.TLSVersMin != 0 {
+								min = sp.TLSVersMin
+						}
+					}
+					adv = map[uint16]bool{}
+					for v := min; v <= h0.LegacyVersion; v++ {
+						adv[v] = true
+					}
+				}
+				return adv
 			}
+			adv := advOf(h0)
 			certKind := "ecdsa"
 			if !offersCert(o, "ecdsa") {
 				certKind = "rsa"
@@ -81,12 +89,26 @@ func c13Scenario(clients []gridClient) *explore.Scenario {
 					sentinelForced = true
 				}
 			}
-			what := fmt.Sprintf("%s server{max=%04x legacy=%v canary=%d}", g.Name, smax, legacy, canary)
+			what := fmt.Sprintf("%s client-config=%d server{max=%04x legacy=%v canary=%d}", g.Name, cliCfg, smax, legacy, canary)
 			var cleanup func()
-			hs := peer.Run(g.config("example.com"), g.ID, scfg, peer.Opts{Prepare: g.prepare(), Echo: true,
+			ccfg := g.config("example.com")
+			switch cliCfg {
+			case 1:
+				ccfg.MinVersion = tls.VersionTLS10
+			case 2:
+				ccfg.MaxVersion = tls.VersionTLS12
+			}
+			hs := peer.Run(ccfg, g.ID, scfg, peer.Opts{Prepare: g.prepare(), Echo: true,
 				OnConns: func(u *tls.UConn, s *tls.Conn) { cleanup = installHooks(s, hk) }})
 			if cleanup != nil {
 				cleanup()
+			}
+			// the advertised set is what THIS connection put on the wire
+			if msgs := peer.ClientHelloMsgs(hs.CE.AllWritten()); len(msgs) > 0 {
+				if hw, err := wire.ParseClientHello(msgs[0]); err == nil {
+					adv = advOf(hw)
+					h0 = hw
+				}
 			}
 			r.Nontrivial = true
 			r.Class = what
